@@ -184,6 +184,18 @@ pub fn run_from(w: &mut World, sc: &C05Scenario, ctx: &mut RunCtx) -> Result<Out
             Step::Cmd { args } => {
                 let (_, v) = hist::exec_and_compare(w, args, nsteps + 1 + i, sc.base.seed ^ 0x55, ctx)?;
                 if let Some(mut v) = v {
+                    // A divergence that the listed C04 finding explains (it needs no fault:
+                    // an unchanged generic definition whose instantiations changed elsewhere)
+                    // is C04's, not a consequence of the fault.
+                    let mut whole = sc.base.clone();
+                    whole.steps.push(Step::Cmd { args: sc.pending.clone() });
+                    whole.steps.extend(sc.after.iter().cloned());
+                    let mut vv = v.clone();
+                    vv.step = nsteps + 1 + i;
+                    if crate::c04::known_tag(&whole, &vv).is_some() {
+                        ctx.probes.inc("after.diverged_by_known_c04_finding");
+                        return Ok(Outcome { violation: None, fired, skipped: true });
+                    }
                     if matches!(sc.fault, Fault::Io(_)) {
                         // I/O errors are outside C05's fault model (death and .build damage):
                         // divergences after them are counted, never reported.
@@ -515,9 +527,12 @@ pub fn check(tier: &str) -> i32 {
             replay: json!({"scenario": min}),
         });
     }
-    for p in ["fault.crash@aw.data:output", "fault.crash@aw.rename:output", "fault.crash@aw.rename:manifest", "fault.crash@aw.rename:blob", "fault.crash@info.data:info.toml", "fault.damage:manifest", "fault.damage:fragment-blob", "fault.damage:info.toml"] {
-        if probes.get(p) == 0 {
-            rep.harness_error(&format!("reach probe {p} stayed at zero"));
+    // Reach: each fault family must really have fired (summed over file classes, so that
+    // the requirement does not depend on what a particular seed's states rewrite).
+    for fam in ["fault.crash@aw.data", "fault.crash@aw.rename", "fault.crash@info.data", "fault.damage:manifest", "fault.damage:fragment-blob", "fault.damage:info.toml"] {
+        let n: u64 = probes.0.iter().filter(|(k, _)| k.starts_with(fam)).map(|(_, v)| *v).sum();
+        if n == 0 {
+            rep.harness_error(&format!("reach probe {fam}* stayed at zero"));
         }
     }
     let wall = start.elapsed().as_secs_f64();
